@@ -47,7 +47,8 @@ static Grid<T> grid_via(int ctor, const std::vector<T> &v) {
         case 2: return Grid<T>({v[0], v[1]});
         case 3: return Grid<T>({v[0], v[1], v[2]});
         case 4: return Grid<T>({v[0], v[1], v[2], v[3]});
-        default: return Grid<T>({v[0], v[1], v[2], v[3], v[4]});
+        case 5: return Grid<T>({v[0], v[1], v[2], v[3], v[4]});
+        default: return Grid<T>({v[0], v[1], v[2], v[3], v[4], v[5]});
       }
     default: return Grid<T>(std::make_shared<const std::vector<T>>(v));
   }
@@ -330,7 +331,7 @@ static void interp_cases(Harness &H) {
 
 static void run(Harness &H) {
   const double inf = std::numeric_limits<double>::infinity(), nan = std::numeric_limits<double>::quiet_NaN();
-  grid_cases<double>(H, "double", {-inf, -1.0, -0.0, 0.0, 1.0, 2.0, inf, nan}, H.thorough() ? 5 : 4);
+  grid_cases<double>(H, "double", {-inf, -1.0, -0.0, 0.0, 1.0, 2.0, inf, nan}, H.thorough() ? 6 : 4);
   grid_cases<S>(H, "QP", {mki<S>(0), mki<S>(1), mki<S>(2)}, 5);
   support_cases(H);
   spline_cases<0>(H);
